@@ -335,8 +335,13 @@ def _site_caught(repo, L, s, exc) -> bool:
 def _safe_idiom(f, call: ast.Call, api: str) -> str | None:
     txt = ast.unparse(call)
     if api == "builtins.bytes.decode":
-        recv = ast.unparse(call.func.value) if isinstance(call.func, ast.Attribute) else ""
-        if recv.endswith(".text") or recv == "text":
+        from ..util import expand_locals as _xl
+        rv0 = _xl(f.node, call.func.value) if isinstance(call.func, ast.Attribute) else None
+        # `t = node.text; if not t: ...; t.decode()` - the receiver is (a local bound to) the .text of a tree-sitter node
+        bound_text = isinstance(call.func, ast.Attribute) and isinstance(call.func.value, ast.Name) and any(
+            isinstance(a, (ast.Assign, ast.AnnAssign)) and isinstance(a.value, ast.Attribute) and a.value.attr == "text" and any(isinstance(t, ast.Name) and t.id == call.func.value.id for t in (a.targets if isinstance(a, ast.Assign) else [a.target]))
+            for a in ast.walk(f.node))
+        if (isinstance(rv0, ast.Attribute) and rv0.attr == "text") or bound_text:
             return "decode() of tree-sitter node text - the analyzer encoded the (already decoded) source to UTF-8 itself"
         rv = call.func.value if isinstance(call.func, ast.Attribute) else None
         if isinstance(rv, ast.Subscript) and isinstance(rv.slice, ast.Slice) and isinstance(rv.value, ast.Call) and call_name(rv.value) == "encode" and "start_byte" in ast.unparse(rv.slice):
@@ -350,8 +355,9 @@ def _safe_idiom(f, call: ast.Call, api: str) -> str | None:
                         if isinstance(t, ast.Compare) and isinstance(t.ops[0], ast.In) and ast.unparse(t.left) == sub and ast.unparse(t.comparators[0]) == recv:
                             return f"guarded by `{sub} in {recv}`"
     if api in ("json.loads", "json.load"):
-        if "row[" in txt:
-            return "json of a database row the tool serialised itself"
+        a0 = call.args[0] if call.args else None
+        if isinstance(a0, ast.Subscript) and isinstance(a0.value, ast.Name) and "sqlite3" in f.module.imports:
+            return "json of a column of a database row the tool serialised itself (sqlite store module)"
         if "config" in f.module.name or "config" in f.name or "layout" in f.name:
             return "configuration reader: a parse error is a configuration error (exit 2 is the documented outcome)"
     return None
